@@ -6,6 +6,7 @@ use std::collections::HashMap;
 use std::borrow::Borrow;
 use std::hash::Hash;
 verus! {
+//@include specs/err.rs
 //@include specs/tok.rs
 pub struct BPETokenizerConfig;  // configuration record, never inspected by the units
 
